@@ -96,14 +96,20 @@ class World(BaseWorld):
         else:
             state = {l: rng.choice((0, 1)) for l in labels}
         lo, hi = c["vals"]
-        return (state, rng.randint(lo, hi), spin)
+        v = rng.randint(lo, hi)
+        if c.get("float_vals") and rng.random() < 0.5:
+            v = v + rng.choice([0.0, 0.5, -0.5, 0.25])
+        return (state, v, spin)
 
     def gen_recs(self, rng, lo=0, hi=4):
         return [self.gen_rec(rng) for _ in range(rng.randint(lo, hi))]
 
     def gen_src(self, rng):
         """An operand for extend / + / += / constructor."""
-        kind = choose_weighted(rng, [("ar", 4), ("list", 2), ("gen", 1), ("self", 1.5), ("empty_ar", 1.5), ("empty_list", 1)])
+        kind = choose_weighted(rng, [("ar", 4), ("list", 2), ("gen", 1), ("self", 1.5), ("empty_ar", 1.5), ("empty_list", 1),
+                                     ("tuple", 0.7), ("iter", 0.7), ("reversed", 0.4), ("map", 0.4)])
+        if kind in ("tuple", "iter", "reversed", "map"):
+            return {"k": kind, "items": [enc_rec(r) for r in self.gen_recs(rng)]}
         if kind == "ar" and self.live:
             return {"k": "ar", "slot": rng.randrange(len(self.live))}
         if kind == "self":
@@ -255,6 +261,14 @@ class World(BaseWorld):
             return (self.mk(r) for r in recs), recs, "gen"
         if k == "list":
             return [self.mk(r) for r in recs], recs, "list"
+        if k == "tuple":
+            return tuple(self.mk(r) for r in recs), recs, "tuple"
+        if k == "iter":
+            return iter([self.mk(r) for r in recs]), recs, "iter"
+        if k == "reversed":
+            return reversed([self.mk(r) for r in recs]), recs[::-1], "reversed"
+        if k == "map":
+            return map(self.mk, recs), recs, "map"
         raise HarnessError("bad src %r" % (src,))
 
     def add_live(self, impl, shadow):
@@ -417,8 +431,8 @@ class World(BaseWorld):
 
     def op_add(self, op, a, impl, sh):
         src = op["src"]
-        if src["k"] == "gen":
-            src = dict(src, k="list")      # list + generator is a TypeError for lists
+        if src["k"] in ("gen", "tuple", "iter", "reversed", "map"):
+            src = dict(src, k="list")      # list + non-list is a TypeError for lists
         operand, recs, tag = self.resolve_src(src, a)
         if not recs:
             self.probe("empty_argument")
@@ -582,7 +596,7 @@ def gen_cfg(rng, prop, tier):
         "n_ops": rng.choice([4, 8, 15, 30] if tier == "quick" else [4, 8, 15, 30, 60]),
         "vals": [lo, hi],
         "p_spin": rng.choice([0.0, 0.5, 1.0]),
-        "max_labels": rng.choice([0, 1, 2, 3]),
+        "max_labels": rng.choice([0, 1, 2, 3]), "float_vals": rng.random() < 0.3,
         "weights": w,
     }
 
